@@ -38,11 +38,13 @@ def pick_modules(ck, n):
 
 
 def parse_cases(text):
-    """Split harness output into cases: dict(begin, script lines, expects, oracle lines)."""
-    cases, cur = [], None
+    """Split harness output into sessions: dict(begin, caseidx, script lines, expects, oracle lines, ops)."""
+    cases, cur, idx = [], None, -1
     for line in text.splitlines():
-        if line.startswith("begin "):
-            cur = {"begin": line, "script": [line], "expect": [], "oracle": [], "ops": []}
+        if line.startswith("caseidx "):
+            idx = int(line.split()[1])
+        elif line.startswith("begin "):
+            cur = {"begin": line, "caseidx": idx, "script": [line], "expect": [], "oracle": [], "ops": []}
         elif cur is None:
             continue
         elif line.startswith("expect "):
@@ -64,16 +66,16 @@ def parse_cases(text):
     return cases
 
 
-def replay_text(case):
-    f = case["begin"].split()
-    kv = dict(x.split("=") for x in f[3:])
-    head = "case %s %s %s %s %s %d\n" % (f[2], kv["rate"], kv["fmt"], f[1], kv["near_end"], len(case["ops"]))
-    return head + "".join("%d %d\n" % o for o in case["ops"])
+def replay_info(shard, case):
+    exe, seed, ncases, maxhex, mods = shard
+    return {"how": "harness c12_playbuffer <seed> <ncases> <maxhex> <only> <modules…> re-generates exactly this case",
+            "args": [str(seed), str(ncases), str(maxhex), str(case["caseidx"])] + mods,
+            "session": case["begin"], "ops": case["ops"]}
 
 
 def run_shard(args):
     exe, seed, ncases, maxhex, mods = args
-    rc, out, err = vlib.run_exe(exe, [str(seed), str(ncases), str(maxhex)] + mods, timeout=1200)
+    rc, out, err = vlib.run_exe(exe, [str(seed), str(ncases), str(maxhex), "-1"] + mods, timeout=1200)
     return rc, out.decode("latin-1"), err
 
 
@@ -88,7 +90,8 @@ def run(ck):
     shards = [(exe, ck.seed * 7919 + i, per, maxhex, mods) for i in range(nshards)]
     results = vlib.pmap(run_shard, shards)
     stats = {"calls": 0, "ret_-1": 0, "zero_fill_end": 0, "resets": 0, "stops": 0, "boundary_crossing_calls": 0,
-             "nonpositive_sizes": 0, "skipped_modules": 0, "cases_with_end": 0, "exhausted": 0}
+             "nonpositive_sizes": 0, "skipped_modules": 0, "cases_with_end": 0, "exhausted": 0,
+             "sessions_after_restart": 0}
     for (rc, out, err), sh in zip(results, shards):
         if rc != 0:
             sig = vlib.sanitizer_signature(err)
@@ -121,14 +124,14 @@ def run(ck):
             stats["stops"] += sum(1 for o in c["ops"] if o[0] == 2)
             stats["nonpositive_sizes"] += sum(1 for o in c["ops"] if o[0] == 0 and o[1] <= 0)
             stats["cases_with_end"] += 1 if ended else 0
+            stats["sessions_after_restart"] += 0 if c["begin"].endswith("session=0") else 1
             key = vlib.hash_str(c["begin"] + repr(c["ops"]))
             ck.count(key, nontrivial=crossing > 0)
             ck.sample({"case": c["begin"], "ops": c["ops"][:12], "first_expect": [e[:60] for e in c["expect"][:3]]}, limit=4)
             fails = [o for o in c["oracle"] if o.startswith("oracle_fail")]
             if fails:
                 ck.violation("oracle:" + c["begin"].split()[2].split("/")[-1],
-                             {"how": "write `script` to a file and run: harness c12_playbuffer --replay <file>",
-                              "script": replay_text(c), "oracle": fails[:5]},
+                             dict(replay_info(sh, c), oracle=fails[:5]),
                              "xmp_play_buffer output differs from the xmp_play_frame stream: " + fails[0])
                 continue
             if mo is not None:
@@ -138,16 +141,17 @@ def run(ck):
                         break
                     if e != m:
                         ck.unproved("correspondence PlayBuffer.playBuffer vs xmp_play_buffer",
-                                    "case %s call #%d: real=%s model=%s ; replay script:\n%s" % (
-                                        c["begin"], k, e[:80], m[:80], replay_text(c)))
+                                    "case %s call #%d: real=%s model=%s ; replay: %s" % (
+                                        c["begin"], k, e[:80], m[:80], " ".join(replay_info(sh, c)["args"][:4])))
                         break
                 else:
                     ck.cov["traces_validated_against_impl"] += 1
     for k, v in stats.items():
         ck.note(k, v)
-    ck.cov["rule"] = ("cases = (module, rate, format, loop limit, near-end start, random script of xmp_play_buffer sizes / NULL resets / "
-                      "xmp_stop_module) generated from VERIF_SEED; distinct by hash of the case; non-trivial = at least one call leaves a "
-                      "partially consumed frame (chunk boundary inside a frame)")
+    ck.cov["rule"] = ("cases = player sessions (module, rate, format, loop limit, near-end start, random script of xmp_play_buffer sizes / "
+                      "NULL resets / xmp_stop_module; 1-3 sessions per twin context pair with player restarts in between) generated from "
+                      "VERIF_SEED; distinct by hash of the session; non-trivial = at least one call leaves a partially consumed frame "
+                      "(chunk boundary inside a frame)")
     ck.assumptions += [
         "frame production (xmp_play_frame) is deterministic across two identical contexts (C06) and buffer_size > 0 (C16)",
         "the end is absorbing: after -XMP_END / loop limit every later xmp_play_frame also terminates (C16 loop counter monotone)",
@@ -156,11 +160,12 @@ def run(ck):
 
 def replay(ck, rp):
     exe = vlib.build_harness("c12_playbuffer", ["c12_playbuffer.c"])
-    path = os.path.join(vlib.OUT, "c12-replay-script.txt")
-    open(path, "w").write(rp["replay"]["script"])
-    rc, out, err = vlib.run_exe(exe, ["--replay", path])
-    print(out.decode("latin-1")[-2000:])
+    rc, out, err = vlib.run_exe(exe, rp["replay"]["args"])
+    text = out.decode("latin-1")
+    fails = [l for l in text.splitlines() if l.startswith("oracle_fail")]
+    print("\n".join(l for l in text.splitlines() if not l.startswith(("frame ", "expect ")))[-3000:])
     print(err[-2000:])
-    if rc != 0:
-        print("VIOLATION property=C12 replay=%s" % path)
-    return 1 if rc != 0 else 0
+    if rc != 0 or fails:
+        print("VIOLATION property=C12 replay=%s" % "(replayed)")
+        return 1
+    return 0
